@@ -14,6 +14,16 @@ def sh(cmd, **kw):
 
 
 def main():
+    # the scratch worktrees and /verif snapshots are numbered slots under /tmp: two concurrent runs would clobber each other
+    # (happened once: a background full run and a foreground subset run; both logs had to be discarded)
+    import fcntl
+    global _LOCK
+    _LOCK = open('/tmp/verif_mutants.lock', 'w')
+    try:
+        fcntl.flock(_LOCK, fcntl.LOCK_EX | fcntl.LOCK_NB)
+    except OSError:
+        print('another mutants.py run holds /tmp/verif_mutants.lock; refusing to share its scratch slots')
+        sys.exit(3)
     argv = sys.argv[1:]
     jobs = 3
     if '--jobs' in argv:
